@@ -41,7 +41,7 @@ CHECKS = {
     'C03': chk('E1 kani-step', 'model_checking', 'DESIGN.md §4 C03', STEP_T + '; ' + MIR_T,
                'For every table state of the listed shapes and every new system the real insertion_target never answers with a stage in front of the barrier index; E2: the stage search runs over the literal range barrier..number_of_stages, add_barrier sets the index to the current number of stages and the builder-level add_barrier forwards unconditionally. By induction max stage(pre-barrier) < min stage(post-barrier); the executor part shows stages never overlap.', BOTH_NOTE),
     'C04': chk('E1 kani-exec', 'model_checking', 'DESIGN.md §4 C04', EXEC_T + '; ' + MIR_T,
-               'Executor harness: on every listed layout (incl. a full group of 5, three stages, thread-local systems, a batch with 0/1/2 inner dispatches) every system runs exactly once per dispatch call of every kind, for two successive calls; the rayon contract (each job once) is the stated assumption. Commit harness: one insert adds exactly one id and one boxed system to the same slot. E2: the fan-out functions are "one call per item, nothing else" for 0..3 items, MultiDispatcher::run dispatches exactly plan() times.', BOTH_NOTE),
+               'Executor harness: on every listed layout (incl. a full group of 5, three stages, thread-local systems, a batch with 0/1/2 inner dispatches) every system runs exactly once per dispatch call of every kind, for two successive calls; the rayon contract (each job once) is the stated assumption. Commit harness: one insert adds exactly one id and one boxed system to the same slot. E2: the fan-out functions are "one call per item, nothing else" for 0..3 items, MultiDispatcher::run dispatches exactly plan() times; the async dispatcher (a third way to run the same plan) takes the state back on every accessor, spawns one job that runs every stage once in order, and wait runs each thread-local system once after the state is back on every path.', BOTH_NOTE),
     'C05': chk('E1 kani-exec', 'model_checking', 'DESIGN.md §4 C05', EXEC_T + '; ' + STEP_T + '; ' + MIR_T,
                'REDUCED claim: on the same built dispatcher the partial order induced by dispatch_par under the rayon contract and the total order of dispatch_seq agree on every pair that is not "same region, different job", and those pairs are the non-conflicting ones by C01. The isolation premise is re-checked (planner step fleet, commit part of insert); without `parallel`, dispatch is dispatch_seq and the placement code is byte-identical. Not decided: commutation of non-conflicting steps on the real World under real interleavings.', BOTH_NOTE),
     'C06': chk('E2 mir-smt', 'other', 'DESIGN.md §4 C06', MIR_T + '; %s: borrow state after fetch = declared access' % WORLD_T,
@@ -53,11 +53,11 @@ CHECKS = {
     'C11': chk('E1 kani-exec', 'model_checking', 'DESIGN.md §4 C11', EXEC_T + '; ' + MIR_T,
                'REDUCED claim (no liveness): every group of a stage is a distinct job of ONE parallel for_each region inside ONE install on the dispatcher\'s pool; the default pool is built without an explicit thread count; the batch\'s inner dispatcher uses the same shared pool handle. Not decided: that real rayon overlaps the jobs.', BOTH_NOTE),
     'C12': chk('E1 kani-exec', 'model_checking', 'DESIGN.md §4 C12', EXEC_T + '; ' + MIR_T,
-               'Executor harness: thread-local systems run after all ordinary ones, in registration order, outside the pool, only in dispatch / dispatch_thread_local; try_into_sendable is Ok exactly for 0 thread-local systems and preserves the layout. E2: dispatch = parallel part then thread-local loop; AsyncDispatcher::wait takes the state back and then runs each thread-local system once on every path. Known finding KF1 (add_batch of a builder with thread-local systems) is reported as KNOWN-FINDING.', BOTH_NOTE),
+               'Executor harness: thread-local systems run after all ordinary ones, in registration order, outside the pool, only in dispatch / dispatch_thread_local; try_into_sendable is Ok exactly for 0 thread-local systems and preserves the layout. E2: dispatch = parallel part then thread-local loop; AsyncDispatcher::wait takes the state back and then runs each thread-local system once on every path (no early return), and no other step of the async hand-over (accessors, poll, dispatch, job, build_async) touches the thread-local list. Known finding KF1 (add_batch of a builder with thread-local systems) is reported as KNOWN-FINDING.', BOTH_NOTE),
     'C13': chk('E1 kani-exec', 'model_checking', 'DESIGN.md §4 C13', EXEC_T + '; ' + MIR_T,
-               'Executor harness: setup and dispose reach every ordinary, thread-local and batched system exactly once on every listed layout. E2: the fan-out functions, the blanket RunNow impl and the batch wrapper forward setup/dispose exactly once; DefaultProvider::setup is entry().or_insert_with(default) and nothing else; PanicHandler / Option setups are empty.', BOTH_NOTE),
+               'Executor harness: setup and dispose reach every ordinary, thread-local and batched system exactly once on every listed layout. E2: the fan-out functions, the blanket RunNow impl and the batch wrapper forward setup/dispose exactly once; DefaultProvider::setup is entry().or_insert_with(default) and nothing else; PanicHandler / Option setups are empty; AsyncDispatcher::setup and the async hand-over steps (state back before anything else) likewise.', BOTH_NOTE),
     'C18': chk('E1 kani-step', 'model_checking', 'DESIGN.md §4 C18', STEP_T + '; ' + MIR_T,
-               'Totality: every reachable panic (unwrap, overflow, indexing, group capacity) inside insertion_target/find_conflict/remove_ids/improves_balance and the commit is a CBMC check on every listed shape, and a joined group always has room; by induction no well-formed sequence panics. E2: add panics exactly on an unknown dependency or a reused non-empty name, quoting it, before anything is inserted; the empty name never touches the map.', BOTH_NOTE),
+               'Totality: every reachable panic (unwrap, overflow, indexing, group capacity) inside insertion_target/find_conflict/remove_ids/improves_balance and the commit is a CBMC check on every listed shape, and a joined group always has room; by induction no well-formed sequence panics. E2: add panics exactly on an unknown dependency or a reused non-empty name, quoting it, before anything is inserted; the empty name never touches the map; a fresh name is recorded exactly once, keyed by an owned copy of the name as given, with the id handed to insert; a rejected registration leaves the name map as it was.', BOTH_NOTE),
 }
 
 CHECKS.update({
@@ -75,7 +75,7 @@ CHECKS.update({
     'C19': chk('E1 kani-step', 'model_checking', 'DESIGN.md §4 C19', 'relational bounded model checking (Kani/CBMC) of insertion_target under a solver-chosen resource permutation; ' + MIR_T,
                'Relational harness: two table states of the same shape related by a solver-chosen permutation of the 6 resource ids (across both static types and the dynamic ids), with solver-chosen orders of the 2-element read/write lists, get the same target from the real insertion_target. Commit harness + E2: insert stores exactly the declared ids (sort/dedup only) and DispatcherBuilder::add hands only ids, never names, to the planner. The MIR bodies of the placement functions are identical with and without the `parallel` feature. No source of nondeterminism is reachable from placement.', BOTH_NOTE),
     'C20': chk('E2 mir-smt', 'other', 'DESIGN.md §4 C20', MIR_T,
-               'REDUCED claim: write_par_seq has no panicking path of its own and does not unwrap the name lookup; it walks self.ids stage by stage, group by group, system by system (each inner loop iterates the item just yielded), looks every system up once, prints a named system as its name with space/dash/slash replaced and an unnamed one as a placeholder, one line per system plus two bracket lines per stage/group/plan; Debug for the builder prints its own tables with its own name map. That ids and the executed list are in lock-step is C04.', MIR_NOTE),
+               'REDUCED claim: write_par_seq has no panicking path of its own and does not unwrap the name lookup; it walks self.ids stage by stage, group by group, system by system (each inner loop iterates the item just yielded), looks every system up once, prints a named system as its name with space/dash/slash replaced and an unnamed one as a placeholder, one line per system plus two bracket lines per stage/group/plan; Debug for the builder prints its own tables with its own name map, print_par_seq formats exactly this builder through that impl and prints it (no condition, nothing else); the name map that is printed from is only written by add: once per fresh name, under the name as given, never on a rejected registration. That ids and the executed list are in lock-step is C04.', MIR_NOTE),
 })
 
 UNDER_CONSTRUCTION = 'check under construction in this session; not claimed yet'
